@@ -54,7 +54,8 @@ def fault_run(job, spec, cap, wall):
     if counter[1]:
         ok = status == 'crash' and crash[0] == 'ValueError'
         if not ok:
-            res['viol'].append(('C10', 'invalid_sample_not_rejected', repr((kind, k, badname, status, crash))))
+            lab = tuple(job.get('label') or ('C10', 'invalid_sample_not_rejected'))
+            res['viol'].append((lab[0], lab[1], repr((kind, k, badname, status, crash))))
             res['spec'] = spec
     return res
 
@@ -122,6 +123,7 @@ def main(prop, tier, vseed, replay=None):
             return main(prop, payload.get('tier', tier), vseed, None)
         jobs = [{'profile': 'replay', 'seed': payload['spec']['seed'], 'spec': payload['spec']}]
         if payload.get('job', {}).get('fault'): jobs[0]['fault'] = payload['job']['fault']
+        if payload.get('job', {}).get('label'): jobs[0]['label'] = payload['job']['label']
     else:
         jobs = [{'profile': p, 'seed': s} for p, s in profiles.plan(prop, tier, vseed)]
         jobs += [{'profile': 'pinned', 'seed': k} for k in range(pinned.count(prop))]
@@ -137,6 +139,16 @@ def main(prop, tier, vseed, replay=None):
                 bad = rr.choice(['floatbatch', 'negbatch', 'str', 'nan']) if kind == 'bat' else rr.choice(['neg', 'nan', 'str', 'none', 'combneg'])
                 prof = {'arr': 'c10', 'srv': 'c10', 'bat': 'c10', 'ren': 'c13', 'cct': 'c08'}[kind]
                 jobs.append({'profile': prof, 'seed': vseed * 1000003 + 700000 + i, 'fault': (kind, rr.randint(1, 12), bad)})
+        if prop == 'C02':
+            # a negative duration (plain, or the result of a combined distribution whose parts are each valid) must be refused:
+            # accepted, it schedules an event in the past (service_end < service_start, clock steps back)
+            import random as _r
+            rr = _r.Random(vseed + 17)
+            for i in range(40 if tier == 'quick' else 800):
+                kind = rr.choice(['arr', 'srv', 'srv', 'ren', 'cct'])
+                prof = {'arr': 'c10', 'srv': 'c10', 'ren': 'c13', 'cct': 'c08'}[kind]
+                jobs.append({'profile': prof, 'seed': vseed * 1000003 + 710000 + i, 'fault': (kind, rr.randint(1, 12), rr.choice(['neg', 'combneg'])),
+                             'label': ('C02', 'negative_duration_accepted')})
     runs, cap, wall, ties = profiles.BUDGET[tier]
     timeout = 900 if tier == 'quick' else 6 * 3600
     results, failures = runner.run_shards('ciwmon.tracecheck', jobs, {'prop': prop, 'tier': tier}, timeout)
@@ -156,9 +168,9 @@ def main(prop, tier, vseed, replay=None):
         if r.get('skipped'):
             skipped += 1; continue
         if r.get('fault'):
-            agg['C10.fault_runs'] += 1
-            if r['injected']: agg['C10.faults_injected'] += 1
-            if r['injected'] and not r['viol']: agg['C10.faults_rejected_with_ValueError'] += 1
+            agg[prop + '.fault_runs'] += 1
+            if r['injected']: agg[prop + '.faults_injected'] += 1
+            if r['injected'] and not r['viol']: agg[prop + '.faults_rejected_with_ValueError'] += 1
             for (p, code, det) in r['viol']:
                 viol_paths.append(runner.write_replay(prop, code, {'property': prop, 'code': code, 'witness': det, 'spec': r.get('spec'), 'job': r['job'], 'tier': tier}))
             continue
